@@ -22,7 +22,7 @@ WALL = {"quick": 280, "thorough": 3500}
 RULE = ("one run = graph + 1-4 groups built from intended walks/sets in a random item style, split over "
         "lines, delivered in a scheduled order; distinct = distinct (style, walk shape, order) digests")
 PROBES = ["style_segments", "style_edges", "style_alternating", "style_mixed", "nested_plus", "nested_minus",
-          "multiline_o", "multiline_u", "group_before_items", "reversed_edge_traversal", "noncontiguous",
+          "replaced_group_object_edited", "multiline_o", "multiline_u", "group_before_items", "reversed_edge_traversal", "noncontiguous",
           "ambiguous", "single_edge_item", "set_with_path", "set_nested", "walk_len_ge4", "contradicting_tags", "reader_during_delivery",
           "early_answer", "early_error", "nested2", "nested2_minus", "sub_edge_boundary",
           "unnamed_edge_induced", "wrong_orientation"]
@@ -374,6 +374,44 @@ def expected_set(name, groups_by, lines_by, edges, seen=()):
     return segs
 
 
+def stale_objects_edited(g, ordered, vlevel, st, perm):
+    """the same delivery with the group lines given as Line objects the caller keeps: an object that was replaced by
+    the merged group is the caller's own again, what is appended to it afterwards does not concern the group"""
+    ids = [ln.split("\t")[1] for ln in ordered if ln.split("\t")[0] in ("O", "U")]
+    if not any(ids.count(x) > 1 and x != "*" for x in ids):
+        return
+    kept = []
+
+    def deliver():
+        g2 = gfapy.Gfa(vlevel=vlevel, version="gfa2")
+        for ln in ordered:
+            if ln.split("\t")[0] in ("O", "U"):
+                obj = gfapy.Line(ln, vlevel=vlevel, version="gfa2")
+                kept.append(obj)
+                g2.add_line(obj)
+            else:
+                g2.add_line(ln)
+        return g2
+    o2 = core.call(deliver)
+    if not o2.ok:
+        return
+    edited = 0
+    for obj in kept:
+        if not obj.is_connected():
+            r = core.call(obj.append_item, "zzq9+") if obj.record_type == "O" else core.call(obj.add_item, "zzq9")
+            edited += r.ok
+    if not edited:
+        return
+    st.count("probe.replaced_group_object_edited")
+    st.count("oracle.replaced_object_detached")
+    a, b = sorted(ob.text_lines(g)), sorted(ob.text_lines(o2.value))
+    if a != b:
+        raise core.Violation("group-follows-replaced-object",
+                             "order %r: after items were appended to the line objects replaced by merged groups the Gfa "
+                             "writes %r, expected %r" % (perm, [x for x in b if x not in a][:2], [x for x in a if x not in b][:2]),
+                             rt="group")
+
+
 def run(scn, st):
     lines = scn["lines"]
     edges = [tuple(e) for e in scn["edges"]]
@@ -428,6 +466,7 @@ def run(scn, st):
             raise core.Violation("valid-rejected", "document rejected in order %r: %s: %s" %
                                  (perm, o.excname, str(o.exc)[:300]), exc=o.excname, frame=o.frame)
         g = o.value
+        stale_objects_edited(g, ordered, vlevel, st, perm)
         for grp in groups:
             name = grp["name"]
             defs = [ln.split("\t") for ln in lines if ln.split("\t")[0] == grp["rt"] and ln.split("\t")[1] == name]
